@@ -2,7 +2,7 @@
 # Build everything from files on disk: regenerate tables from /repo, full
 # Coq build, extraction, OCaml driver.
 set -e
-cd /verif
+cd "$(dirname "$0")"
 if [ -f translator/generate.py ]; then python3 translator/generate.py; fi
 ./build.sh
 test -x ocaml/driver
